@@ -232,6 +232,8 @@ PROPS["C04"] = {
     "harnesses": [
         {"pkg": "app", "name": "VerifC04_ExitCode", "quick": {}, "thorough": {},
          "bounds": {"exit code": "full int64", "policy": "arbitrary string len<=16", "exit_on_end/exit_on_skipped": "both"}},
+        {"pkg": "app", "name": "VerifC04_ReadyWaiter", "quick": {"d": 2}, "thorough": {"d": 3}, "replay_repeat": 8,
+         "bounds": {"N": 2, "p0": "exits 0, exit_on_end or exit_on_failure, readiness probe never answered", "p2": "process_healthy on p0", "schedules": "two preemptions (three thorough)"}},
         {"pkg": "app", "name": "VerifC04_Project", "quick": {"d": 0}, "thorough": {"d": 1}, "replay_repeat": 8, "reach": ["end", "nonzero.exit"],
          "bounds": {"N": 3, "behaviour": "exit 0 / exit 3+i / runs until stopped, per process", "flags": "none / exit_on_failure / exit_on_end / exit_on_skipped, per process",
                     "edge": "optional p2 -> p0 completed_successfully / healthy", "shutdown": "default or ordered"}},
@@ -239,7 +241,7 @@ PROPS["C04"] = {
     "stubs": ["Commander: vCmd (exit code -1 when ended by the signal)"],
     "assumptions": ["handleErrorAndExit/os.Exit mapping of the binary not run"],
 }
-_lv("C04", "Kernel: runner onProcessEnd/onProcessSkipped for every exit code, policy string and flag combination (solver-decided). Project: real runner on 3 processes, per process exit 0 / distinct non-zero / runs until stopped x {none, exit_on_failure, exit_on_end, exit_on_skipped}, optional completed_successfully edge, delay bound d: Run() returns (no hang) with nothing alive, nil unless a trigger occurred, and the code is that of a triggering process, never of a victim of the shutdown; the shutdown a trigger starts is the default or the ordered one.",
+_lv("C04", "Kernel: runner onProcessEnd/onProcessSkipped for every exit code, policy string and flag combination (solver-decided). Project: real runner on 3 processes, per process exit 0 / distinct non-zero / runs until stopped x {none, exit_on_failure, exit_on_end, exit_on_skipped}, optional completed_successfully edge, delay bound d: Run() returns (no hang) with nothing alive, nil unless a trigger occurred, and the code is that of a triggering process, never of a victim of the shutdown; the shutdown a trigger starts is the default or the ordered one. ReadyWaiter: a dependent that gives up waiting for the readiness of a process that ended does not change that process's exit code (the project reports the command's own code).",
     "Stub Commander (victims exit with -1); N=3; preemption at labelled yields/blocking ops; the binary's os.Exit mapping is outside.")
 _lv("C01", "Real runner on 3 processes, every subset of the acyclic edges x the five condition types, dependency behaviours (exit 0/3, runs on, ready line printed or not, one readiness check success/failure delivered at any instant), delay bound d; ground truth (exited, exit 0, probe success seen, line served, released from own dependencies) kept by the stubs and evaluated at every launch. Api: a gated process restarted / stopped+started / scaled to 2 / added by UpdateProject while its dependency is not ready (or has failed) is launched only after the dependency became ready, never when it failed. Api2: a never-scheduled sibling dependency does not end the wait for the other dependencies (both depends_on orders); a dependent started after its dependency was restarted waits for the new instance; UpdateProject adding a dependency and its dependent in one request (every map order, one preemption) gates the dependent.",
     "Stub Commander, scripted stdout, go-health scheduler harness-driven (natively the real exec probe 'true'/'false'); un-replicated dependencies; N=3.")
